@@ -124,6 +124,25 @@ def summarise_writer(an):
     return {"w_adv_min": best}
 
 
+def summarise_retlin(an):
+    """integer-returning functions whose result is one linear form over lengths of data behind `self`"""
+    b = an.b
+    if b.local_ty(0)["k"] != "int" or b.argc < 1:
+        return None
+    vals = []
+    for bi, st in an.ret_states:
+        v = st.store.get("_0")
+        if v is None or v[0] != "lin":
+            return None
+        vals.append(v[1])
+    if not vals or any(v != vals[0] for v in vals[1:]):
+        return None
+    for s0 in vals[0].syms():
+        if "(*_1)" not in s0 or not re.match(r"^(len|N\[[^\]]*\]|SUM\[[^\]]*\])\(", s0):
+            return None
+    return {"ret_lin": vals[0]}
+
+
 def summarise_iter(an):
     """functions that return `<field of a reference parameter>.iter()`"""
     vals = [v for bi, st, v in an.ok_points]
@@ -237,6 +256,8 @@ class Whole:
                 s = summarise_bool(an)
             if s is None:
                 s = summarise_iter(an)
+            if s is None:
+                s = summarise_retlin(an)
             if s is not None:
                 self.summaries[bid] = s
             self._preconditions(b, an)
